@@ -860,6 +860,10 @@ def r_helper_preconditions(r, prog):
     guards.evaluate(r, prog, rule_scopes.guards_slice_grammar, 'guards_slice_grammar.json', 20)
 
 
+
+def r_lexer_preconditions(r, prog):
+    guards.evaluate(r, prog, rule_scopes.guards_slice_lexer, 'guards_slice_lexer.json', 100)
+
 def run(ctx):
     prog = ctx.prog
     flow = _flow(ctx)
@@ -874,3 +878,4 @@ def run(ctx):
     ctx.run_rule('C02.8', 'T1', 'lexer modes, token text and character-wise consumption', r_lexer_modes, prog)
     ctx.run_rule('C02.9', 'T10', 'parse results are attached to the file they came from, on every path', perfile.r_results_attached_to_own_file, prog)
     ctx.run_rule('C02.10', 'T13', 'conditions under which grammar helpers report, return and mutate (precondition ledger)', r_helper_preconditions, prog)
+    ctx.run_rule('C02.11', 'T13', 'conditions under which the Slice lexer consumes, returns and switches modes (precondition ledger)', r_lexer_preconditions, prog)
